@@ -8,7 +8,7 @@ TECH = ('explicit TLA+ specification (spec/Contract.tla = contract L0, spec/Ring
         'behaviour of L1 is replayed into the real crate, and the recorded trace is validated by TLC against L0 (spec/Trace.tla)')
 
 NOTE = ('trusted base: TLC + CommunityModules JSON, rustc/cargo, the harness crate /verif/harness (records calls and user callbacks, '
-        'judges nothing). Bounded: capacities 0..3 (quick) / 0..4 (thorough), one injected fault per scenario; the hand transcription '
+        'judges nothing). Bounded: capacities 0..4 (quick) / 0..5 (thorough), one injected fault per scenario; the hand transcription '
         'spec/Ring.tla is only a scenario generator and design-level check - the verdict on the code comes from validating traces of '
         'the real code against spec/Contract.tla')
 
@@ -25,6 +25,8 @@ P = {
     'C10': ('model_checking', 'mem::forget of a drain after every script prefix, then follow-up operations and drop: contents are live, distinct, from the original, disjoint from handed-out elements; no second destructor run', '7'),
     'C11': ('model_checking', 'panic iff documented (range/drain bounds incl. Included/Excluded(usize::MAX), swap, index); every other call returns for every argument incl. usize::MAX and capacity 0; unchanged contents after a documented panic; a process that dies or hangs is attributed to its scenario', '7'),
     'C12': ('model_checking', 'from array (all lengths 0..2N+1), from_iter, new/default/boxed: contents, destroyed prefix, ids', '7'),
+    'C14': ('model_checking', 'write/read/fill_buf/consume/flush from every layout with every length (write 0..2N+1, destination 0..N+2, consume 0..N+2 and usize::MAX) enumerated by TLC on the I/O family of L1, replayed on CircularBuffer<N,u8> with garbage in unoccupied bytes, plus seeded random interleavings at larger capacities; each call validated against the byte-stream clauses of the contract', '7'),
+    'C16': ('model_checking', 'the C14 scenario set replayed through embedded_io and embedded_io_async trait methods (and std::io in the same build) in three builds (embedded-io, embedded-io-async, both); one contract for all families => same counts, bytes, contents; futures polled once must be Ready; a build failure of a configuration is a violation', '7'),
     'C17': ('model_checking', 'allocation counter of a counting global allocator sampled around every recorded call; contract clause allocs = 0 except boxed/to_vec', '7'),
     'C20': ('model_checking', 'relocations measured from element addresses before/after each call; contract bounds per operation (<= 2, len-i for remove, len-j for drain, 0 for make_contiguous on contiguous contents)', '7'),
 }
